@@ -320,6 +320,14 @@ static void jobRun(const vutil::Job& j) {
     }
     g_thrMode = j.get("draw_mode", "outcome") == "threshold";
     parseGc(j.get("gc", "none"));
+    // optional per-shot collection schedules: "gcs" = specs separated by '/'
+    std::vector<std::string> gcPerShot;
+    {
+        std::string g = j.get("gcs", "");
+        std::istringstream is(g);
+        std::string tok;
+        while (std::getline(is, tok, '/')) gcPerShot.push_back(tok);
+    }
     bloch::verif::draw = drawHook;
     bloch::verif::op = opHook;
     bloch::verif::gcAt = gcHook;
@@ -336,6 +344,7 @@ static void jobRun(const vutil::Job& j) {
                     g_script.push_back(atoi(t.c_str()));
             }
         }
+        if ((size_t)s < gcPerShot.size()) parseGc(gcPerShot[s]);
         g_drawIdx = 0;
         g_draws.clear();
         g_ops.clear();
